@@ -26,6 +26,9 @@ pub struct DocSpec {
     /// (path, start, end, is_key) recorded by DocGen while writing
     pub spans: Vec<(Vec<PathSeg>, usize, usize, bool)>,
     pub source: String,
+    /// the layout plan the text was rendered from (DocGen documents only): lets the minimiser shrink the document
+    #[serde(default)]
+    pub plan: Option<crate::docgen::DocPlan>,
 }
 
 #[derive(Clone, Debug, PartialEq, Eq, Hash, Serialize, Deserialize, PartialOrd, Ord)]
